@@ -19,10 +19,14 @@ func (u *unit) resolve(sr SRoot, actuals []locset) locset {
 		if sr.Idx >= len(actuals) {
 			return nil
 		}
-		if sr.Deep {
-			return u.deep(actuals[sr.Idx])
+		switch {
+		case sr.Depth == 0:
+			return actuals[sr.Idx]
+		case sr.Depth < MaxDepth:
+			return u.loadN(actuals[sr.Idx], int(sr.Depth))
+		default:
+			return u.deep(u.loadN(actuals[sr.Idx], MaxDepth-1))
 		}
-		return actuals[sr.Idx]
 	}
 	return nil
 }
@@ -334,17 +338,22 @@ func (a *Analysis) contractFor(name string, nres int) *Summary {
 			s.W[WKey{SRoot{Kind: RParam, Idx: num(tok[1:])}, "?"}] = why
 		case tok[0] == 'W':
 			s.W[WKey{SRoot{Kind: RParam, Idx: num(tok[1:])}, "?"}] = why
-			s.W[WKey{SRoot{Kind: RParam, Idx: num(tok[1:]), Deep: true}, "*"}] = why
+			for d := uint8(1); d <= MaxDepth; d++ {
+				s.W[WKey{SRoot{Kind: RParam, Idx: num(tok[1:]), Depth: d}, "*"}] = why
+			}
 		case tok[0] == 'a' || tok[0] == 'c':
 			parts := strings.Split(tok[1:], ">r")
 			i, j := num(parts[0]), num(parts[1])
 			if j < nres {
 				if tok[0] == 'a' {
 					s.RA[j][SRoot{Kind: RParam, Idx: i}] = why
-					s.RC[j][SRoot{Kind: RParam, Idx: i, Deep: true}] = why
+					for d := uint8(1); d <= MaxDepth; d++ {
+						s.RC[j][SRoot{Kind: RParam, Idx: i, Depth: d}] = why
+					}
 				} else {
-					s.RC[j][SRoot{Kind: RParam, Idx: i}] = why
-					s.RC[j][SRoot{Kind: RParam, Idx: i, Deep: true}] = why
+					for d := uint8(0); d <= MaxDepth; d++ {
+						s.RC[j][SRoot{Kind: RParam, Idx: i, Depth: d}] = why
+					}
 				}
 			}
 		case tok[0] == 'k':
